@@ -263,7 +263,7 @@ Ni1 0 0 0
 """
 
 PRIORS = ["empty", "atoms", "copy-of-other-class", "stale-pdffit", "stale-xcfg", "extra-attrs", "titled", "loaded-nonP1-cif",
-          "rotated-lattice", "same-cell-rotated"]
+          "rotated-lattice", "same-cell-rotated", "same-cell-ppm"]
 
 
 def make_prior(kind, clsname):
@@ -275,6 +275,10 @@ def make_prior(kind, clsname):
         return T()
     if kind == "atoms":
         return T([A("Cu", [0, 0, 0]), A("Zn", [0.5, 0.5, 0.5])], lattice=ds.Lattice(3.1, 3.1, 5.2, 90, 90, 120))
+    if kind == "same-cell-ppm":
+        # the cell of the source (filled in by read_case) with every edge a few parts per million longer: "the same cell" to
+        # a tolerant comparison, a different cell to the reader (falls back to an almost-unit cell)
+        return T([A("Cu", [0, 0, 0]), A("Zn", [0.5, 0.5, 0.5])], lattice=ds.Lattice(1.000002, 1.000002, 1.000002, 90, 90, 90))
     if kind == "same-cell-rotated":
         # exactly the six cell parameters of the source (filled in by read_case), in another orientation; falls back to
         # a unit cell in that orientation (what an xyz source gives) when the source cannot be parsed
@@ -465,6 +469,10 @@ def read_case(ck, case, tmp, lines, pending):
     if prior == "same-cell-rotated" and sep[0] == "ok":
         c_, s_ = 0.6, 0.8
         t.lattice = ds.Lattice(*[float(v) for v in sep[1].lattice.abcABG()], baserot=[[c_, s_, 0.0], [-s_, c_, 0.0], [0.0, 0.0, 1.0]])
+    if prior == "same-cell-ppm" and sep[0] == "ok":
+        abc = [float(v) for v in sep[1].lattice.abcABG()]
+        t.lattice = ds.Lattice(abc[0] * (1 + 2e-6), abc[1] * (1 - 3e-6), abc[2] * (1 + 1e-6), abc[3], abc[4], abc[5],
+                               baserot=[[float(v) for v in r] for r in sep[1].lattice.baserot])
     ids = Ids()
     keep = list(t)
     before = snapshot(t)
